@@ -227,7 +227,7 @@ Next ==
          E == res.st
          \* out-of-scope argument combinations are not judged; whether a detached reaction object exists is
          \* known to the driver only
-         judged == res.raises # "skip" /\ ~(op.a \in {"DetachedSetBounds", "ReAddDetached"} /\ ev.raises = "skip")
+         judged == res.raises # "skip" /\ ~(op.a \in {"DetachedSetBounds", "ReAddDetached", "DetachedRename"} /\ ev.raises = "skip")
          \* an analysis may legitimately raise (infeasible model ...): its outcome is not predicted, the model
          \* must be unchanged either way
          unexpectedRaise == judged /\ op.a \notin {"Analyze", "Helper"} /\ ev.raises # res.raises
